@@ -26,7 +26,8 @@ EXPLANATION = (
     'numeric, called the way the evaluator calls it: int, float, Number, numeric text plain / decimal / scientific, '
     'TRUE for 1, FALSE and blank for 0 give the same outcome at every position, non-numeric text gives #VALUE! '
     '(numpy on floats by IEEE semantics); (C08.10) + - * / and & on every ordered pair of scalar operand kinds '
-    'against the reference ("3"+1=4, TRUE+1=2, blank+1=1, #VALUE!, #DIV/0!, text forms joined).')
+    'against the reference ("3"+1=4, TRUE+1=2, blank+1=1, #VALUE!, #DIV/0!, text forms joined).'
+    " (C08.10) + - * / ^ and & on every ordered pair of 14 operand spellings (numpy's integer power modelled with 64-bit semantics); texts that spell a boolean are keyed apart (known finding F42).")
 NOT_DECIDED = 'equality of results across spellings at the value level'
 TRUSTED = ['typing.NewType/Union semantics of the annotation aliases', 'functools.wraps makes inspect.signature see the wrapped signature']
 
